@@ -1,14 +1,10 @@
 (** Top-level statements about Parse: the machine started by p.parse on a reset state returns what
     the reference semantics says, for every memo / inline setting the generator can choose. *)
 From PegV Require Import Base.Tac Base.ListX Spec.Syntax Spec.Peg Model.Machine Model.Runtime Model.Analyses Model.Gen
-  Spec.Tokens Proofs.PegFacts Proofs.Sim Proofs.AsuSound Proofs.Forest Proofs.RuntimeProofs.
+  Spec.Tokens Spec.WF Proofs.PegFacts Proofs.Sim Proofs.AsuSound Proofs.Forest Proofs.RuntimeProofs Proofs.Total.
 
 Definition good_grammar (g : grammar) : Prop := forall r b, nth_error g r = Some (RBody b) -> expr_ok b = true.
 Definition good_buf (buf : list rune) : Prop := forall c, In c buf -> c <> endSymbol.
-
-(** executable version of good_grammar, used by the harness *)
-Definition good_grammar_b (g : grammar) : bool :=
-  forallb (fun rb => match rb with RBody b => expr_ok b | _ => true end) g.
 
 Lemma good_grammar_b_ok g : good_grammar_b g = true -> good_grammar g.
 Proof.
@@ -231,6 +227,33 @@ Proof.
   assert (A : ast (live st') = (if 0 =? p then None else Some (Rose (r, (0, p)) (prune_forest kids)))).
   { rewrite L, Hf. apply ast_of_parse. rewrite <- Hf. exact W. }
   split; [exact A|]. unfold print_tree. rewrite A. destruct (0 =? p); reflexivity.
+Qed.
+
+(** C01 (totality): on a well-formed grammar the semantics - hence the machine - has a result for
+    every input and every entry rule whose slot holds a function: the parser always terminates
+    with a verdict. *)
+Lemma c01_total tab rank r rb :
+  wf_b g tab rank = true -> nth_error g r = Some rb -> rb <> RNil ->
+  exists n rr, peg_parse g ptx buf penv n r = Some rr.
+Proof.
+  intros Hwf Hr Hn. unfold peg_parse.
+  apply (total g ptx buf penv tab rank Hwf (length buf) (hrank tab rank (EName r)) 1 (EName r) 0); auto; try lia.
+  cbn [local_ok]. rewrite Hr. destruct rb; congruence.
+Qed.
+
+Lemma c01_total_machine tab rank memo inline r rb st0 :
+  wf_b g tab rank = true -> nth_error g r = Some rb -> rb <> RNil -> slot_ok inline r ->
+  exists n rr b st', peg_parse g ptx buf penv n r = Some rr /\
+    machine memo inline n r st0 = Some (Ret b st') /\
+    (b = true <-> exists p f, fst rr = Succ p f /\ pos st' = p).
+Proof.
+  intros Hwf Hr Hn Hs. destruct (c01_total tab rank r rb Hwf Hr Hn) as (n & rr & H).
+  pose proof (c01_verdict_prefix memo inline n r st0 rr Hs H) as V.
+  exists n, rr. destruct rr as [[|p f] evs]; cbn [fst] in V.
+  - destruct V as (st' & R). exists false, st'. split; [exact H|]. split; [exact R|].
+    split; [discriminate|]. intros (p & f & E & _). discriminate.
+  - destruct V as (st' & R & P1). exists true, st'. split; [exact H|]. split; [exact R|].
+    split; [intros _; exists p, f; auto|reflexivity].
 Qed.
 
 End Corollaries.
